@@ -7,8 +7,13 @@ Representation: every Go integer field is a `Nat` and every Go arithmetic operat
 wrap is written with its explicit modulus (`dec8`, `dec16`, `sub16`, `% 65536` …), so that the
 arithmetic proofs are `omega` work.  Bit-field packing on DISJOINT bits is rendered
 arithmetically:  `(f & 0x00ff) | uint16(v&7)<<8`  is  `f % 256 + (v % 8) * 256`,
-`(v >> 4) & 7` is `v / 16 % 8`, `(v>>3)&1 > 0` is `v / 8 % 2 = 1`.  Written byte values
+`(v >> 4) & 7` is `v / 16 % 8`, `(v>>3)&1 > 0` is `v / 8 % 2 > 0`.  Written byte values
 are `< 256` (the top-level `Apu.write` reduces them mod 256).
+
+Shape: each Go function is an if-tree whose leaves are ONE record update of the incoming state
+(a Go statement sequence `x = e1; if c { y = e2 }` becomes `{ s with x := e1, y := if c … }`);
+longer Go functions are compositions of such pieces (`trigger = dacGate ∘ triggerSweep ∘
+trigBase`).  This keeps `simp`/`split` proofs small (DESIGN §13).
 -/
 namespace Tetro.Model.Apu
 
@@ -22,6 +27,11 @@ def dec32 (a : Nat) : Nat := (a + 4294967295) % 4294967296
 def sub16 (a b : Nat) : Nat := (a % 65536 + 65536 - b % 65536) % 65536
 /-- uint8 `x++` -/
 def inc8 (a : Nat) : Nat := (a + 1) % 256
+
+/-- bit 7 of an NRx4 write: trigger -/
+def trigOf (v : Nat) : Bool := decide (v / 128 % 2 > 0)
+/-- bit 6 of an NRx4 write: length enable -/
+def leOf (v : Nat) : Bool := decide (v / 64 % 2 > 0)
 
 /-- `square` (with the embedded `*sweep`; `hasSweep = false` is the nil pointer of channel 2) -/
 structure Square where
@@ -49,83 +59,89 @@ structure Square where
   triggered : Bool := false
 deriving DecidableEq, Repr
 
+/-- `(2048 - f) * 4` in uint16 -/
+def sqPeriodOf (f : Nat) : Nat := (sub16 2048 f * 4) % 65536
+
 namespace Square
 
-/-- `(2048 - s.frequency) * 4` in uint16 -/
-def period (s : Square) : Nat := (sub16 2048 s.frequency * 4) % 65536
+def period (s : Square) : Nat := sqPeriodOf s.frequency
 
 /-- the value returned by `calculateFrequency` (uint16; `newFrequency = -newFrequency` wraps) -/
 def calcValue (s : Square) : Nat :=
-  let nf := s.shadowFrequency >>> s.sweepShift
-  let nf := if !s.sweepIncrease then (65536 - nf) % 65536 else nf
-  (s.shadowFrequency + nf) % 65536
+  if !s.sweepIncrease then (s.shadowFrequency + (65536 - (s.shadowFrequency >>> s.sweepShift)) % 65536) % 65536
+  else (s.shadowFrequency + (s.shadowFrequency >>> s.sweepShift)) % 65536
 
 /-- the side effects of `calculateFrequency` -/
 def calcState (s : Square) : Square :=
-  let v := s.calcValue
-  let s := if !s.sweepIncrease then { s with sweepDescending := true } else s
-  if v > 2047 then { s with enabled := false } else s
+  { s with sweepDescending := s.sweepDescending || !s.sweepIncrease,
+           enabled := s.enabled && decide (s.calcValue ≤ 2047) }
+
+/-- first statements of `trigger` (up to the volume reload) -/
+def trigBase (s : Square) : Square :=
+  { s with triggered := true, enabled := true,
+           length := if s.length = 0 then 64 else s.length,
+           timer := s.period,
+           envelopeTimer := if s.envelopeSweep = 0 then 8 else s.envelopeSweep,
+           volume := s.initialVolume }
+
+/-- shadow copy, sweep timer reload and internal enable flag of the sweep block of `trigger` -/
+def sweepReload (s : Square) : Square :=
+  { s with shadowFrequency := s.frequency,
+           sweepTimer := if s.sweepPeriod = 0 then 8 else s.sweepPeriod,
+           sweepEnabled := decide (s.sweepPeriod > 0) || decide (s.sweepShift > 0) }
 
 /-- the `if s.sweep != nil { … }` block of `trigger` -/
 def triggerSweep (s : Square) : Square :=
-  if !s.hasSweep then s else
-  let s := { s with shadowFrequency := s.frequency, sweepTimer := s.sweepPeriod }
-  let s := if s.sweepTimer = 0 then { s with sweepTimer := 8 } else s
-  let s := { s with sweepEnabled := decide (s.sweepPeriod > 0) || decide (s.sweepShift > 0) }
-  if s.sweepShift > 0 then s.calcState else s
+  if !s.hasSweep then s
+  else if s.sweepShift > 0 then s.sweepReload.calcState
+  else s.sweepReload
+
+/-- `if !s.dacEnabled { s.enabled = false }` -/
+def dacGate (s : Square) : Square := { s with enabled := s.enabled && s.dacEnabled }
 
 /-- `square.trigger` -/
-def trigger (s : Square) : Square :=
-  let s := { s with triggered := true, enabled := true }
-  let s := if s.length = 0 then { s with length := 64 } else s
-  let s := { s with timer := s.period, envelopeTimer := s.envelopeSweep }
-  let s := if s.envelopeTimer = 0 then { s with envelopeTimer := 8 } else s
-  let s := { s with volume := s.initialVolume }
-  let s := s.triggerSweep
-  if !s.dacEnabled then { s with enabled := false } else s
+def trigger (s : Square) : Square := s.trigBase.triggerSweep.dacGate
 
 /-- `square.tickTimer` -/
 def tickTimer (s : Square) : Square :=
-  let s := if s.timer = 0 then
-      { s with timer := s.period, dutyIndex := if inc8 s.dutyIndex ≥ 8 then 0 else inc8 s.dutyIndex }
-    else s
-  { s with timer := dec16 s.timer }
+  if s.timer = 0 then
+    { s with timer := dec16 s.period, dutyIndex := if inc8 s.dutyIndex ≥ 8 then 0 else inc8 s.dutyIndex }
+  else { s with timer := dec16 s.timer }
 
 /-- `square.tickLength` -/
 def tickLength (s : Square) : Square :=
-  if !s.lengthEnable then s else
-  if s.length > 0 then
-    let s := { s with length := dec8 s.length }
-    if s.length = 0 then { s with enabled := false } else s
+  if !s.lengthEnable then s
+  else if s.length > 0 then
+    { s with length := dec8 s.length, enabled := s.enabled && decide (dec8 s.length ≠ 0) }
   else s
 
 /-- `square.tickVolumeEnvelope` -/
 def tickVolumeEnvelope (s : Square) : Square :=
-  if s.envelopeSweep = 0 then s else
-  let s := if s.envelopeTimer = 0 then
-      (if s.envelopeIncrease then
-        (if s.volume < 15 then { s with volume := inc8 s.volume, envelopeTimer := s.envelopeSweep } else s)
-       else
-        (if s.volume > 0 then { s with volume := dec8 s.volume, envelopeTimer := s.envelopeSweep } else s))
-    else s
-  { s with envelopeTimer := dec8 s.envelopeTimer }
+  if s.envelopeSweep = 0 then s
+  else if s.envelopeTimer = 0 then
+    (if s.envelopeIncrease then
+      (if s.volume < 15 then { s with volume := inc8 s.volume, envelopeTimer := dec8 s.envelopeSweep }
+       else { s with envelopeTimer := dec8 s.envelopeTimer })
+     else
+      (if s.volume > 0 then { s with volume := dec8 s.volume, envelopeTimer := dec8 s.envelopeSweep }
+       else { s with envelopeTimer := dec8 s.envelopeTimer }))
+  else { s with envelopeTimer := dec8 s.envelopeTimer }
+
+/-- `s.frequency = nf; s.shadowFrequency = nf` -/
+def storeFreq (s : Square) (nf : Nat) : Square := { s with frequency := nf, shadowFrequency := nf }
 
 /-- the `else` arm of `tickSweep` (period non-zero): calculate, maybe store and calculate again -/
 def sweepStep (s : Square) : Square :=
-  let nf := s.calcValue
-  let s := s.calcState
-  if nf < 2048 ∧ s.sweepShift > 0 then
-    ({ s with frequency := nf, shadowFrequency := nf } : Square).calcState
-  else s
+  if s.calcValue < 2048 ∧ s.sweepShift > 0 then (s.calcState.storeFreq s.calcValue).calcState
+  else s.calcState
 
 /-- `square.tickSweep` -/
 def tickSweep (s : Square) : Square :=
-  if !s.sweepEnabled then s else
-  let s := { s with sweepTimer := dec8 s.sweepTimer }
-  if s.sweepTimer = 0 then
-    let s := { s with sweepTimer := s.sweepPeriod }
-    if s.sweepTimer = 0 then { s with sweepTimer := 8 } else s.sweepStep
-  else s
+  if !s.sweepEnabled then s
+  else if dec8 s.sweepTimer = 0 then
+    (if s.sweepPeriod = 0 then { s with sweepTimer := 8 }
+     else sweepStep { s with sweepTimer := s.sweepPeriod })
+  else { s with sweepTimer := dec8 s.sweepTimer }
 
 /-- `waveduty[duty][dutyIndex]` (0 or 1); `none` is Go's index-out-of-range panic -/
 def dutyWave (duty idx : Nat) : Option Nat :=
@@ -138,46 +154,50 @@ def dutyWave (duty idx : Nat) : Option Nat :=
 
 /-- `square.takeSample` as the exact numerator over 120: `wave · volume/8 = 15·wave·volume / 120` -/
 def sampleNum (s : Square) : Option Nat :=
-  if !s.enabled || !s.dacEnabled then some 0 else
-  match dutyWave s.duty s.dutyIndex with
-  | some w => some (15 * w * s.volume)
-  | none => none
+  if !s.enabled || !s.dacEnabled then some 0
+  else (dutyWave s.duty s.dutyIndex).map (fun w => 15 * w * s.volume)
 
 /-- `WriteNR10` (power check done by the caller) -/
 def writeNR10 (s : Square) (v : Nat) : Square :=
-  let s := { s with sweepPeriod := v / 16 % 8, sweepIncrease := decide (v / 8 % 2 = 0), sweepShift := v % 8 }
-  let s := if s.sweepIncrease && s.sweepDescending then { s with enabled := false } else s
-  { s with sweepDescending := false }
+  { s with sweepPeriod := v / 16 % 8, sweepIncrease := decide (v / 8 % 2 = 0), sweepShift := v % 8,
+           enabled := s.enabled && !(decide (v / 8 % 2 = 0) && s.sweepDescending),
+           sweepDescending := false }
 
 /-- `WriteNR12` / `WriteNR22` -/
 def writeNRx2 (s : Square) (v : Nat) : Square :=
-  let s := { s with initialVolume := v / 16, envelopeIncrease := decide (v / 8 % 2 > 0), envelopeSweep := v % 8 }
-  let s := { s with dacEnabled := decide (s.initialVolume > 0) || s.envelopeIncrease }
-  if !s.dacEnabled then { s with enabled := false } else s
+  { s with initialVolume := v / 16, envelopeIncrease := decide (v / 8 % 2 > 0), envelopeSweep := v % 8,
+           dacEnabled := decide (v / 16 > 0) || decide (v / 8 % 2 > 0),
+           enabled := s.enabled && (decide (v / 16 > 0) || decide (v / 8 % 2 > 0)) }
 
 /-- `WriteNR13` (channel 1 also reloads the timer) -/
 def writeNR13 (s : Square) (v : Nat) : Square :=
-  let s := { s with frequency := s.frequency / 256 * 256 + v }
-  { s with timer := s.period }
+  { s with frequency := s.frequency / 256 * 256 + v, timer := sqPeriodOf (s.frequency / 256 * 256 + v) }
 
 /-- `WriteNR23` -/
 def writeNR23 (s : Square) (v : Nat) : Square :=
   { s with frequency := s.frequency / 256 * 256 + v }
 
+/-- frequency high bits of an NRx4 write -/
+def setFreqHi (s : Square) (v : Nat) : Square := { s with frequency := s.frequency % 256 + (v % 8) * 256 }
+
+/-- the extra length clock when length becomes enabled in the first half of a frame-sequencer period -/
+def extraLenClock (s : Square) (fs : Nat) (le trig : Bool) : Square :=
+  if !s.lengthEnable && le && decide (s.length > 0) && decide (fs % 2 = 1) then
+    { s with length := dec8 s.length, enabled := s.enabled && !(decide (dec8 s.length = 0) && !trig) }
+  else s
+
+/-- the extra length clock of a trigger that reloaded the full length -/
+def trigLenClock (s : Square) (fs : Nat) (le : Bool) : Square :=
+  if le && decide (s.length = 64) && decide (fs % 2 = 1) then { s with length := dec8 s.length } else s
+
+def trigPart (s : Square) (fs : Nat) (le trig : Bool) : Square :=
+  if trig then s.trigger.trigLenClock fs le else s
+
+def setLE (s : Square) (le : Bool) : Square := { s with lengthEnable := le }
+
 /-- `WriteNR14` / `WriteNR24`; `fs` is `a.frameSeqTicks` -/
 def writeNRx4 (s : Square) (fs : Nat) (v : Nat) : Square :=
-  let s := { s with frequency := s.frequency % 256 + (v % 8) * 256 }
-  let trig : Bool := decide (v / 128 % 2 > 0)
-  let le : Bool := decide (v / 64 % 2 > 0)
-  let s := if !s.lengthEnable && le && decide (s.length > 0) && decide (fs % 2 = 1) then
-      (let s : Square := { s with length := dec8 s.length }
-       if s.length = 0 ∧ trig = false then { s with enabled := false } else s)
-    else s
-  let s := if trig then
-      (let s : Square := s.trigger
-       if le && decide (s.length = 64) && decide (fs % 2 = 1) then { s with length := dec8 s.length } else s)
-    else s
-  { s with lengthEnable := le }
+  (((s.setFreqHi v).extraLenClock fs (leOf v) (trigOf v)).trigPart fs (leOf v) (trigOf v)).setLE (leOf v)
 
 end Square
 end Tetro.Model.Apu
